@@ -823,7 +823,7 @@ def c19(tier, seed):
 
 
 def c09(tier, seed):
-    return stream_obs(['h_sgetb32', 'h_sgetb64', 'h_sgetble32', 'h_sgetbs']) + crc_obs(tier) + state_obs(tier) + crc_record_obs() + mapguard_obs() + runguard_obs() + ssync_obs()
+    return stream_obs(['h_sgetb32', 'h_sgetb64', 'h_sgetble32', 'h_sgetbs']) + crc_obs(tier) + state_obs(tier) + crc_record_obs() + mapguard_obs() + runguard_obs() + ssync_obs() + header_obs()
 
 
 NSEC_ENC = dict(region='nsec_enc', file='cmdline/state.c', begin='/* encode STAT_NSEC_INVALID as 0 */', end='sputb64(inode, f);', end_first_after=True, max_lines=8, expect_loops=0,
@@ -890,6 +890,33 @@ def ssync_obs():
                functions=['ssync (cmdline/stream.c)'], note='1..4 handles, every outcome of each fsync')]
 
 
+HDR_WRITE = dict(region='hdr_write', file='cmdline/state.c', begin='/* check what version to use */', end='/* for each map */', end_first_after=True, max_lines=110, expect_loops=1,
+                 proto='static void *region_hdr_write(struct snapraid_state *state, STREAM *f, block_off_t blockmax, int info_has_rehash, void *context)',
+                 prologue='\tunsigned l;\n\tint version;', epilogue='\treturn 0;')
+
+
+def _hdr_region(name, begin, end, proto, prologue='\tint c, ret;', epilogue=''):
+    return dict(region='hdr_%s' % name, file='cmdline/state.c', begin=begin, end=end, end_first_after=True, max_lines=45, expect_loops=0, proto=proto, prologue=prologue, epilogue=epilogue)
+
+
+HDR_REGIONS = [HDR_WRITE,
+               _hdr_region('c', "} else if (c == 'c') {", "} else if (c == 'C') {", 'static void region_hdr_c(struct snapraid_state *state, STREAM *f, const char *path)'),
+               _hdr_region('cc', "} else if (c == 'C') {", "} else if (c == 'z') {", 'static void region_hdr_cc(struct snapraid_state *state, STREAM *f, const char *path)'),
+               _hdr_region('z', "} else if (c == 'z') {", "} else if (c == 'y') {", 'static void region_hdr_z(struct snapraid_state *state, STREAM *f, const char *path)', prologue='\tint ret;'),
+               _hdr_region('y', "} else if (c == 'y') {", "} else if (c == 'x') {", 'static void region_hdr_y(struct snapraid_state *state, STREAM *f, const char *path)', prologue='\tint ret;'),
+               _hdr_region('x', "} else if (c == 'x') {", "} else if (c == 'm' || c == 'M') {", 'static void region_hdr_x(STREAM *f, const char *path, block_off_t *blockmax_p)',
+                           prologue='\tint ret;\n\tblock_off_t blockmax = *blockmax_p;', epilogue='\t*blockmax_p = blockmax;')]
+
+
+def header_obs():
+    fn = ["state_write_thread: region version choice + header records z x y c C (cmdline/state.c, extracted mechanically)",
+          "state_read_content: branches of the 'c', 'C', 'z', 'y', 'x' records (cmdline/state.c, extracted mechanically)"]
+    return [Ob('state.header.roundtrip', 'harness/h_header.c', 'h_header_roundtrip', inject=HDR_REGIONS, unwind=18, small_path=True, timeout=900, mem=6, cost=3, functions=fn,
+               note='every block size, stripe count, hash size 2..32, hash kind, previous hash kind or none, seeds, 1..2 parity levels with 1..SPLIT_MAX splits, with and without configuration (-C); byte codecs by typed recording stubs (units stream.rt*)'),
+            Ob('state.header.damaged', 'harness/h_header.c', 'h_header_damaged', inject=HDR_REGIONS, unwind=18, small_path=True, timeout=900, mem=6, cost=3, functions=fn[1:],
+               note='one header record with arbitrary sub-letter / 32-bit value / short read against every configuration: refused exactly when not usable')]
+
+
 def mapguard_obs():
     names = dict(f='file', h='hole', s='symlink', a='hardlink', r='dir')
     return [Ob('state.%s_record.mapping_guard' % l, 'harness/h_staterec.c', 'h_map_guard', inject=[NSEC_ENC, NSEC_DEC] + MAP_REGIONS, defs={'VERIF_MAP_REGIONS': None, 'MAP_RECORD': 'region_map_%s' % l},
@@ -940,7 +967,7 @@ def blockruns_obs():
 
 
 def c10(tier, seed):
-    return stream_obs(['h_rt32', 'h_rt64', 'h_rtle32', 'h_rtbs']) + staterec_obs(tier) + blockruns_obs() + frecord_obs()
+    return stream_obs(['h_rt32', 'h_rt64', 'h_rtle32', 'h_rtbs']) + staterec_obs(tier) + blockruns_obs() + frecord_obs() + header_obs()
 
 
 PROPS = {
@@ -1172,7 +1199,7 @@ def c08(tier, seed):
 def c16(tier, seed):
     """format stability = every constant / encoding is pinned to a definition that is not in the repo"""
     c17 = [o for o in PROPS['C17']['obligations'](tier, seed) if o.name in ('parity.split_find.contract', 'parity.split_find.lemma')]
-    return table_obs(tier) + crc_obs(tier) + stream_obs(['h_sgetb32', 'h_sgetb64', 'h_sgetble32', 'h_sgetbs', 'h_rt32', 'h_rt64', 'h_rtle32', 'h_rtbs']) + staterec_obs(tier) + elem_obs(tier) + c17 + hash_obs(tier) + main_obs()[:1] + frecord_obs() + blockruns_obs()
+    return table_obs(tier) + crc_obs(tier) + stream_obs(['h_sgetb32', 'h_sgetb64', 'h_sgetble32', 'h_sgetbs', 'h_rt32', 'h_rt64', 'h_rtle32', 'h_rtbs']) + staterec_obs(tier) + elem_obs(tier) + c17 + hash_obs(tier) + main_obs()[:1] + frecord_obs() + blockruns_obs() + header_obs()
 
 
 def c04(tier, seed):
